@@ -145,6 +145,9 @@ def check_all(m, s, r, fails, why=None):
         u = escurl(s)
     except UnicodeEncodeError:
         u = None
+        if not any(0xD800 <= ord(c) < 0xE000 for c in s):
+            # (a lone surrogate in the INPUT cannot be encoded: known finding of C01; any other input must be answered)
+            bad("escape_url-raises", got="UnicodeEncodeError")
     if u is not None:
         if any(c not in URL_OK for c in u):
             bad("escape_url-unsafe-char", got=u)
@@ -174,6 +177,14 @@ def oracle(ctx, extra):
     # percent-encoded octets of every case mix, alone and embedded
     pct = ["%" + a + b for a in HEX for b in HEX]
     strs += pct + ["/p/" + x + "/q" + y for x in pct[::7] for y in pct[::31]]
+    # numeric character references to every kind of code point (boundaries of the C0/C1 controls, the windows-1252 remapping, the
+    # surrogates, the noncharacters, the end of Unicode and beyond), decimal and hexadecimal, with and without the semicolon, embedded
+    edges = [0, 1, 9, 10, 13, 31, 32, 38, 60, 127, 128, 133, 150, 159, 160, 255, 0x2028, 0xD7FF, 0xD800, 0xD801, 0xDBFF, 0xDC00, 0xDFFF, 0xE000, 0xFDCF, 0xFDD0, 0xFDEF,
+             0xFFFD, 0xFFFE, 0xFFFF, 0x10000, 0x1FFFE, 0x10FFFF, 0x110000, 0x7FFFFFFF] + [r.randrange(0x110000) for _ in range(ctx.n(300, 3000))]
+    for cp in edges:
+        for form in ("&#%d;", "&#x%x;", "&#X%X;", "&#%d", "&#x%X", "&#0%d;"):
+            ref = form % cp
+            strs += [ref, "/p?x=" + ref + "&y", "a" + ref + "b"]
     n = 0
     for s in strs:
         n += 1
@@ -207,7 +218,7 @@ def oracle(ctx, extra):
     return {"evaluations": n + sweep, "distinct_nontrivial": sum(1 for s in strs[:n] if any(c in s for c in "&<>\"% \t") or not s.isascii()),
             "failures": fails, "code_points_swept": sweep, "exhaustive": False,
             "rule": "all strings up to length %d over the alphabet %r, random strings over that alphabet + interesting "
-                    "Unicode, charref-shaped strings, all 484 %%HH octets of every hex case (alone and embedded), plus a "
+                    "Unicode, charref-shaped strings, numeric character references (6 spellings, alone and embedded) to the boundary code points of the controls, the windows-1252 remapping, the surrogates, the noncharacters and the end of Unicode plus sampled ones, all 484 %%HH octets of every hex case (alone and embedded), plus a "
                     "complete sweep of all 1112064 scalar code points; each input is checked against every clause of the "
                     "property on the real functions; non-trivial = contains a character the functions treat specially or "
                     "non-ASCII; distinct by text" % (ctx.n(3, 4), "".join(ALPHA)),
